@@ -172,6 +172,7 @@ def run(chk, prog):
     origin_names_through_the_getter(chk, prog, tr)
     operators_carry_origins_as_tabled(chk, prog)
     range_bounds_from_the_right_end(chk, prog, tr)
+    division_and_remainder_truncate(chk, prog)
     origins_rebuilt_on_push(chk, prog, tr, 'C07.origins-recomputed-on-push',
                             'StoryState::push_evaluation_stack rebuilds the origins of a list value from its items / origin '
                             'names: every push onto InkList::origins there is dominated by a clear of the same vector (or the '
@@ -368,3 +369,52 @@ def origins_rebuilt_on_push(chk, prog, tr, RE, text):
                 chk.decide(RE, chk.key(RE, 'push', '#%d' % i), bool(ok), 'preceded by a clear on every path',
                            'push_evaluation_stack adds to the origins of a list value without emptying them first: origins '
                            'accumulate along the value\'s history instead of being a function of its items', g_.loc(bb))
+
+
+def division_and_remainder_truncate(chk, prog):
+    """Seed C07-6: the compiler folded `%` over literals with checked_rem_euclid."""
+    R = 'C07.division-and-remainder-truncate'
+    chk.rule(R, 'Ink\'s integer / and % truncate towards zero (-7 % 3 is -1). Wherever story numbers are computed - the '
+             'runtime\'s NativeFunctionCall and anything the compiler evaluates ahead of time - the operation is Rust\'s '
+             'truncating one: divide_op and mod_op use / , % or their checked / wrapping forms, and no function of '
+             'NativeFunctionCall or of the compiler crate calls a Euclidean or flooring division or remainder '
+             '(rem_euclid, div_euclid, their checked / wrapping / overflowing forms, div_floor, div_ceil). The two families '
+             'agree on non-negative operands, so only a negative dividend shows the difference.')
+    from analysis.facts import callee_short
+    TRUNC_REM = ('checked_rem', 'wrapping_rem', 'overflowing_rem')
+    TRUNC_DIV = ('checked_div', 'wrapping_div', 'overflowing_div')
+    OTHER = ('euclid', 'div_floor', 'rem_floor', 'div_ceil', 'unsigned_abs_rem', 'next_multiple_of')
+    n = 0
+    for fn in sorted(prog.fns.values(), key=lambda f: f.p):
+        root = prog.root_fn(fn)
+        in_scope = fn.crate == 'bladeink_compiler' or (
+            fn.crate == 'bladeink' and (root.self_adt or '').rsplit('::', 1)[-1] == 'NativeFunctionCall')
+        if not in_scope or '::tests::' in fn.p:
+            continue
+        n += 1
+        for bb, t in fn.calls():
+            d = (t['f'].get('def') or '') + ' ' + (t['f'].get('full') or '')
+            if any(x in d for x in OTHER):
+                chk.fail(R, chk.key(R, root.short, callee_short(t)),
+                         '%s computes with %s: a Euclidean / flooring division or remainder differs from Ink\'s truncating one '
+                         'for a negative dividend (-7 %% 3 must be -1, not 2) - and if only one of compiler and runtime uses it, '
+                         'a constant expression and the same expression over variables give different values'
+                         % (root.short, callee_short(t)), fn.loc(bb))
+    chk.floor(R, 'functions examined (NativeFunctionCall + compiler)', n, 300)
+    for name, fam, sym in (('NativeFunctionCall::mod_op', TRUNC_REM, 'Rem'), ('NativeFunctionCall::divide_op', TRUNC_DIV, 'Div')):
+        f = prog.fn(name)
+        if not chk.anchor(R, name, f):
+            continue
+        ok = False
+        for g in prog.with_closures(f):
+            for bb, t in g.calls():
+                if callee_short(t).rsplit('::', 1)[-1] in fam:
+                    ok = True
+            for bb, si, st in g.stmts():
+                if st['k'] == 'assign' and st['rv']['k'] == 'binop' and st['rv']['op'] in (sym, sym + 'Unchecked'):
+                    ok = True
+        chk.decide(R, chk.key(R, name, 'truncating'), ok, 'uses the truncating operation',
+                   '%s no longer contains a truncating %s (/, %% or a checked / wrapping form): Ink\'s integer arithmetic '
+                   'truncates towards zero' % (name, sym), f.loc(0))
+    if not [f for f in chk.findings if f['rule'] == R]:
+        chk.ok(R, chk.key(R, 'no-euclidean-arithmetic'), 'no Euclidean / flooring arithmetic where story numbers are computed')
